@@ -324,7 +324,7 @@ def predicate_stream(ctx, n):
             r = call_impl(lambda: bool(np.all((g.is_concurrent if asline else g.is_coplanar)(*objs))))
             name = f"is_coplanar:{dim}d:{'lines' if asline else 'points'}"
             if np.linalg.matrix_rank(np.array(pts[:dim], dtype=float)) < dim and m > dim + 1:
-                name = "is_coplanar:dependent-prefix"      # KF-C10-1
+                name = "is_coplanar:dependent-prefix"      # former KF-C10-1 (repaired)
         else:               # angle_bisectors
             dim = rng.choice([2, 3])
             o = [rng.randint(-6, 6) for _ in range(dim)]
@@ -394,7 +394,7 @@ def witnesses(ctx):
     """witnesses of the recorded findings are replayed on every run (a finding stays demonstrated, not assumed)"""
     import geometer as g
     pts = [[8, 4, 6], [-4, -2, -3], [-4, 0, -6], [4, 0, 6], [-3, 0, -2]]
-    desc = f"is_coplanar dim=2 points {pts} (witness KF-C10-1)"
+    desc = f"is_coplanar dim=2 points {pts} (witness of the former finding KF-C10-1)"
     ctx.case(desc)
     r = call_impl(lambda: bool(np.all(g.is_collinear(*[g.Point(np.array(p, dtype=float)) for p in pts]))))
     if r[0] != "ok" or r[1] is not False:
